@@ -3,7 +3,7 @@
   Also: the hypotheses on trees (`nodeOver`: token names are rows of the language's tables) and the
   relation `TblExt` between the string table before and after a step.
 -/
-import Wbxml.Lemmas.EncWTyped
+import Wbxml.Lemmas.EncWSplit
 namespace Wbxml.Lemmas.EncW
 open Wbxml Wbxml.Model Wbxml.Spec Wbxml.Lemmas.ParseSer
 open Wbxml.Model.Codec (mbEncode)
@@ -108,6 +108,49 @@ theorem foundOf_mem (c : WCfg) (name : Name) (st : WSt) (hn : nameOver c.lang na
     | none => simp [ht] at h
     | some tags => rw [ht] at h; exact ⟨tags, rfl, encTag_mem _ _ _ _ h⟩
 
+theorem encTagLoop1_name (cur : Nat) (name : Bytes) (l : List TagRow) (f : Bool) (r : TagRow)
+    (h : encTagLoop1 cur name l f = some r) : r.name = name := by
+  induction l generalizing f with
+  | nil => simp [encTagLoop1] at h
+  | cons x xs ih =>
+    simp only [encTagLoop1] at h
+    split at h
+    · split at h
+      · rename_i hn
+        injection h with h; subst h; simpa using hn
+      · exact ih _ h
+    · split at h
+      · cases h
+      · exact ih _ h
+
+theorem encTag_name (tags : List TagRow) (cur : Option Nat) (name : Bytes) (r : TagRow)
+    (h : encTag tags cur name = some r) : r.name = name := by
+  unfold encTag at h
+  cases cur with
+  | none =>
+    have := List.find?_some h
+    simpa using this
+  | some c =>
+    simp only at h
+    cases h1 : encTagLoop1 c name tags false with
+    | some r' => rw [h1] at h; injection h with h; subst h; exact encTagLoop1_name _ _ _ _ _ h1
+    | none =>
+      rw [h1] at h
+      have := List.find?_some h
+      simp only [Bool.and_eq_true, beq_iff_eq] at this
+      exact this.2
+
+/-- The row `wbxml_encode_tag` works with carries the node's name. -/
+theorem foundOf_name (c : WCfg) (name : Name) (st : WSt) (r : TagRow) (h : foundOf c name st = some r) :
+    r.name = name.cName := by
+  cases name with
+  | token r' => simp only [foundOf] at h; injection h with h; subst h; rfl
+  | literal s =>
+    simp only [foundOf] at h
+    cases ht : c.lang.tags with
+    | none => simp [ht] at h
+    | some tags => rw [ht] at h; exact encTag_name _ _ _ _ h
+
 theorem tagBits_fin : ∀ (t : Fin 64) (a b : Bool),
     (t.val ||| (if a then 0x40 else 0) ||| (if b then 0x80 else 0)) = t.val + tagFlags b a ∧
     ((t.val + tagFlags b a) &&& 0x3F == 0) = (t.val == 0) := by decide
@@ -153,10 +196,10 @@ theorem attrLiteralW_eq (c : WCfg) (name : Bytes) (st : WSt) :
 /-- What `wbxml_encode_tag` may write as `[switchPage] stag`: a row of the tag table under its own
     page (switch exactly when the page in force differs), or a literal whose index is the offset
     of a string-table entry. -/
-inductive TagOk (c : WCfg) (tbl : List StrEntry) (tp : Nat) : Option Nat → Tag → Prop
-  | tok (tags : List TagRow) (r : TagRow) : c.lang.tags = some tags → r ∈ tags →
-      TagOk c tbl tp (swFor tp r.page) (.tok r.token)
-  | lit (off : Nat) : (∃ e ∈ tbl, e.offset = off) → TagOk c tbl tp none (.lit off)
+inductive TagOk (c : WCfg) (tbl : List StrEntry) (tp : Nat) (nm : Bytes) : Option Nat → Tag → Prop
+  | tok (tags : List TagRow) (r : TagRow) : c.lang.tags = some tags → r ∈ tags → r.name = nm →
+      TagOk c tbl tp nm (swFor tp r.page) (.tok r.token)
+  | lit (off : Nat) : (∃ e ∈ tbl, e.offset = off ∧ e.str = nm) → TagOk c tbl tp nm none (.lit off)
 
 theorem encTagW_spec (c : WCfg) (name : Name) (hc ha : Bool) (st st' : WSt)
     (hl : langOk c.lang = true) (hn : nameOver c.lang name = true)
@@ -164,7 +207,7 @@ theorem encTagW_spec (c : WCfg) (name : Name) (hc ha : Bool) (st st' : WSt)
     ∃ sw tag, st'.out = st.out ++ (serSw sw ++ serTag (tagFlags ha hc) tag) ∧
       st'.tagPage = swPage sw st.tagPage ∧ st'.attrPage = st.attrPage ∧
       st'.curTag = foundOf c name st ∧
-      TblExt c st st' ∧ TagOk c st'.strtbl st.tagPage sw tag := by
+      TblExt c st st' ∧ TagOk c st'.strtbl st.tagPage name.cName sw tag := by
   have hfound : ∀ found, found = foundOf c name st →
       (match found with
         | some r => r.token % 256
@@ -214,7 +257,7 @@ theorem encTagW_spec (c : WCfg) (name : Name) (hc ha : Bool) (st st' : WSt)
       simp only [serTag, byte, swFor, Nat.mod_mod]
     · rw [ho.2.1, swPage_swFor]
     · unfold tagTokenW; split <;> rfl
-    · rw [ho.2.2.2.1]; exact .tok tags r ht hm
+    · rw [ho.2.2.2.1]; exact .tok tags r ht hm (foundOf_name c name st r hf)
   | none =>
     rw [hf] at h
     have hz : ((0 ||| (if hc then 0x40 else 0) ||| (if ha then 0x80 else 0)) &&& 0x3F == 0) = true := by
@@ -225,7 +268,7 @@ theorem encTagW_spec (c : WCfg) (name : Name) (hc ha : Bool) (st st' : WSt)
     · rename_i hu
       injection h with h
       subst h
-      obtain ⟨e, he, ho, _⟩ := strtblAdd_idx { st with curTag := none } name.cName none
+      obtain ⟨e, he, ho, hstr⟩ := strtblAdd_idx { st with curTag := none } name.cName none
       refine ⟨none, .lit (strtblAdd { st with curTag := none } name.cName none).2, ?_, ?_, ?_, ?_, ?_, ?_⟩
       · simp only [emit_out, strtblAdd_out, serSw, List.nil_append, serTag, mb]
         congr 2
@@ -236,7 +279,7 @@ theorem encTagW_spec (c : WCfg) (name : Name) (hc ha : Bool) (st st' : WSt)
       · have t1 : TblExt c st { st with curTag := none } := TblExt.of_eq rfl rfl
         have t2 := TblExt.add c hu { st with curTag := none } name.cName
         exact t1.trans (t2.trans (TblExt.of_eq (emit_strtbl _ _) (emit_strtblLen _ _)))
-      · exact .lit _ ⟨e, he, ho⟩
+      · exact .lit _ ⟨e, he, ho, hstr⟩
     · cases h
 
 end Wbxml.Lemmas.EncW
